@@ -16,6 +16,11 @@ def mk_cube(case):
     rng = random.Random(case["dseed"])
     ni, nb, nbin = case["shape"]
     data = np.array([rng.randrange(0, 1000) for _ in range(ni * nb * nbin)], dtype=np.float32).reshape(ni, nb, nbin)
+    if case.get("dkind") == "zerosum":
+        # baseline-subtracted integer data: every profile (hence every sub-band and sub-integration plane) sums to
+        # exactly zero without being zero - content must not decide whether a plane is rotated
+        data = np.array([rng.randrange(-3, 4) for _ in range(ni * nb * nbin)], dtype=np.float32).reshape(ni, nb, nbin)
+        data[..., 0] -= data.sum(axis=2)
     h = mk_header(case["nchans"], 8, nsamples=case["nsamples"], tsamp=case["tsamp"])
     return FoldedData(_layout(data, case.get("layout", "c")), h, case["period0"], case["dm0"], 0), data
 
@@ -51,7 +56,7 @@ class C17(Prop):
         shape = [rng.choice((1, 2, 4)), rng.choice((1, 2, 4)), rng.choice((8, 16, 32))]
         return {"shape": shape, "nchans": 64, "nsamples": 5000000, "tsamp": 64e-6, "period0": rng.choice((0.0372, 0.25, 1.337)),
                 "dm0": rng.choice((0.0, 30.0, 120.5)), "dseed": rng.randrange(1 << 30),
-                "layout": rng.choice(("c", "c", "c", "trim", "stride", "T"))}
+                "layout": rng.choice(("c", "c", "c", "trim", "stride", "T")), "dkind": rng.choice(("rand", "rand", "zerosum"))}
 
     def _alphabet(self, c, rng):
         dms = [c["dm0"], c["dm0"] + rng.choice((5.0, 40.0, 200.0)), max(0.0, c["dm0"] - rng.choice((3.0, 25.0)))]
